@@ -33,6 +33,13 @@ func genC10(e *emitter, tier string) {
 				k += n
 				e.emit(opCase("special", op, nil, []*TJ{fT(dt, s, v)}, nil))
 			}
+			// arguments next to the boundaries of the domains and next to the zeros of the results, where a
+			// formula that is fine elsewhere cancels (acos near 1, acosh near 1, atanh near +-1, results near 0)
+			{
+				near := []float64{1 - 1.0/(1<<24), 1 - 1.0/(1<<20), 0.9999, 0.999, 0.99, 0.9, 0.7072, -(1 - 1.0/(1<<24)), -0.9999, -0.999, -0.99,
+					1 + 1.0/(1<<23), 1 + 1.0/(1<<20), 1.0001, 1.001, 1.01, 1e-4, -1e-4, 1e-3, 3e-3, 0.01, -0.01, 0.1, 1e-20, -1e-20, 0.25, 0.75, 1.5, 3, 10, -10}
+				e.emit(opCase("boundary", op, nil, []*TJ{fT(dt, []int{len(near)}, near)}, nil))
+			}
 			// random values over several magnitudes
 			nr := 20
 			if tier == "thorough" {
